@@ -184,6 +184,11 @@ Record sout := {
 
 Inductive sres := SOk (o : sout) | SErr (e : Z) | SNoOracle.
 
+(** a source (memtable / segment) whose own top-k cut falls inside a group of equal scores may hand
+    any members of that group to the merge: the merged answer is then compared for soundness only *)
+Definition src_weak (o : hyout) : bool :=
+  ho_weak o || tie_at (fun x => F64.key (snd x)) (ho_full o) (0, 0) (ho_n o).
+
 Fixpoint search_segments (rq : hyrequest) (t : triple) (segs : list segment) (acc : list (Z * Z)) (weak : bool)
          (done : list segment) : option (triple * list segment * list (Z * Z) * bool) :=
   match segs with
@@ -195,7 +200,7 @@ Fixpoint search_segments (rq : hyrequest) (t : triple) (segs : list segment) (ac
       if ok then
         match hy_search (hy_of t1 (sg_info g)) rq with
         | HNoOracle => None
-        | HOk o => search_segments rq t1 rest (acc ++ firstn (ho_n o) (ho_full o)) (weak || ho_weak o) (done ++ [g'])
+        | HOk o => search_segments rq t1 rest (acc ++ firstn (ho_n o) (ho_full o)) (weak || src_weak o) (done ++ [g'])
         | HErr _ => search_segments rq t1 rest acc weak (done ++ [g'])
         end
       else search_segments rq t1 rest acc weak (done ++ [g'])
@@ -212,7 +217,7 @@ Definition st_search (s : store) (rq : hyrequest) : sres :=
   | Some HNoOracle => SNoOracle
   | _ =>
       let macc := flat_map (fun r => match r with HOk o => firstn (ho_n o) (ho_full o) | _ => [] end) mres in
-      let mweak := existsb (fun r => match r with HOk o => ho_weak o | _ => false end) mres in
+      let mweak := existsb (fun r => match r with HOk o => src_weak o | _ => false end) mres in
       match search_segments rq (s_T s) (s_segs s) macc mweak [] with
       | None => SNoOracle
       | Some (t', segs', acc, weak) =>
